@@ -154,6 +154,11 @@ class ThreadWorld:
             importlock.install()
             for v in cold_import:
                 purge_version_modules(v)
+        if cfg.get('defaults'):
+            # the process is configured once, here in the main thread, before any worker thread exists
+            import hl7apy
+            hl7apy.set_default_version(cfg['defaults'][0])
+            hl7apy.set_default_validation_level(cfg['defaults'][1])
         skip = ['hl7apy.v' + v.replace('.', '_') for v in (cold_import or ())]
         used = set()
         for prog in actors:
@@ -170,9 +175,23 @@ class ThreadWorld:
         seed = case.get('seed', 0)
         threads_first = cfg.get('order') == 'threads_first'
 
+        self.ref_lines = 0
+
         def reference_pass():
             # every call of every actor alone, in program order, same process
             for aid, prog in enumerate(actors):
+                if aid == 0:
+                    n = [0]
+
+                    def count(code, line):
+                        n[0] += 1
+                    K.line_hook = count
+                    try:
+                        self.expected[aid] = [corpus.run_call(c) for c in prog]
+                    finally:
+                        K.line_hook = None
+                    self.ref_lines = n[0]
+                    continue
                 self.expected[aid] = [corpus.run_call(c) for c in prog]
             if globals_digest(ids=not cold_import, skip=skip, deep_versions=used) != g0:
                 self.violate('C19.globals', 'process-global state changed by sequential calls', 'digest differs')
@@ -187,6 +206,9 @@ class ThreadWorld:
         k.deep_hold_at = frozenset(cfg.get('deep_hold_at', ())) if case.get('schedule') is None else ()
         if case.get('schedule') is None and cfg.get('sweep_at') is not None:
             k.sweep_at = cfg['sweep_at']
+        if case.get('schedule') is None and cfg.get('sweep_frac') is not None and self.ref_lines:
+            # position measured on the sequential reference pass of actor 0
+            k.sweep_thread_lines = max(1, int(cfg['sweep_frac'] * self.ref_lines))
         try:
             for aid, prog in enumerate(actors):
                 k.spawn(self._actor, (aid, prog), label='actor%d' % aid)
